@@ -70,6 +70,13 @@ __all__ = [
     "sm_from_schema",
     "sm_from_introspection",
     "sm_diff",
+    "sm_element",
+    "default_detail",
+    "sm_violations",
+    "sm_type",
+    "sm_units",
+    "member_keys",
+    "tname",
 ]
 
 # ---------------------------------------------------------------------------------------------
@@ -836,12 +843,16 @@ def sm_diff(exp, got, ignore=()):
         k = e["kind"]
         if e["description"] != g["description"]:
             out.append((k + ".description", name, e["description"], g["description"]))
+        if k in ("object", "interface", "enum", "input") and (e.get("fields" if k != "enum" else "values") is None or g.get("fields" if k != "enum" else "values") is None):
+            if e.get("fields" if k != "enum" else "values") != g.get("fields" if k != "enum" else "values"):
+                out.append((k + ".members-null", name, None, None))
+            continue
         if k in ("object", "interface"):
             _cmp_list("field", name, e["fields"], g["fields"], out, field_cmp)
-        if k == "object" and e["interfaces"] != g["interfaces"]:
-            out.append(("object.interfaces", name, e["interfaces"], g["interfaces"]))
-        if k == "union" and e["members"] != g["members"]:
-            out.append(("union.members", name, e["members"], g["members"]))
+        if k == "object" and e.get("interfaces") != g.get("interfaces"):
+            out.append(("object.interfaces", name, e.get("interfaces"), g.get("interfaces")))
+        if k == "union" and e.get("members") != g.get("members"):
+            out.append(("union.members", name, e.get("members"), g.get("members")))
         if k == "enum":
             _cmp_list("enum-value", name, e["values"], g["values"], out, ev_cmp)
         if k == "input":
@@ -860,6 +871,65 @@ def sm_diff(exp, got, ignore=()):
             continue
         _cmp_attrs("directive", "@" + name, e, g, ("description", "locations"), out)
         _cmp_list("directive-arg", "@" + name, e["args"], g["args"], out, darg_cmp)
+    return out
+
+
+def sm_element(sm, path):
+    """'Type.field', 'Type.field.arg', '@directive.arg' -> the SM element (or None)."""
+    parts = path.split(".")
+    try:
+        if parts[0].startswith("@"):
+            d = [d for d in sm["directives"] if d["name"] == parts[0][1:]][0]
+            return d if len(parts) == 1 else [a for a in d["args"] if a["name"] == parts[1]][0]
+        t = sm_type(sm, parts[0])
+        if len(parts) == 1:
+            return t
+        if t["kind"] == "enum":
+            return [v for v in t["values"] if v["name"] == parts[1]][0]
+        f = [f for f in t["fields"] if f["name"] == parts[1]][0]
+        return f if len(parts) == 2 else [a for a in f["args"] if a["name"] == parts[2]][0]
+    except (IndexError, KeyError, TypeError):
+        return None
+
+
+def default_detail(sm, path):
+    """class-key detail for a default difference: kind of the named type and of the declared literal."""
+    el = sm_element(sm, path)
+    if el is None or "type" not in el:
+        return ""
+    named = tname(el["type"])
+    env = sm_env(sm)
+    kind = env[named]["kind"] if named in env else named
+    lit = el["default"][0] if el.get("default") else "none"
+    return "/type=%s/lit=%s" % (kind, lit)
+
+
+def sm_violations(sm):
+    """Reference validity of a model (only the rules a base-only reading of a split document can break):
+    empty member lists, interface fields missing from an implementing object, root types."""
+    out = []
+    env = sm_env(sm)
+    for t in sm["types"]:
+        k = t["kind"]
+        if k in ("object", "interface", "input") and not t["fields"]:
+            out.append("empty-" + k)
+        if k == "union" and not t["members"]:
+            out.append("empty-union")
+        if k == "enum" and not t["values"]:
+            out.append("empty-enum")
+        if k == "object":
+            have = {f["name"]: f for f in t["fields"]}
+            for i in t["interfaces"]:
+                it = env.get(i)
+                if it is None or it["kind"] != "interface":
+                    out.append("implements-non-interface")
+                    continue
+                for f in it["fields"]:
+                    if f["name"] not in have:
+                        out.append("interface-field-missing")
+    q = sm["roots"].get("query")
+    if not q or q not in env or env[q]["kind"] != "object":
+        out.append("no-query-root")
     return out
 
 
